@@ -76,9 +76,9 @@ creadMM(FILE *fp, int *m, int *n, int_t *nonz,
        exit(-1);
      }
 
-     if(strcmp(arith,"real")) {
-       if(!strcmp(arith,"complex")) {
-         printf("Complex matrix; use zreadMM instead!\n");
+     if(strcmp(arith,"complex")) {
+       if(!strcmp(arith,"real")) {
+         printf("Real matrix; use sreadMM instead!\n");
          exit(-1);
        }
        else if(!strcmp(arith, "pattern")) {
